@@ -78,6 +78,12 @@ def fmtString (f : Flags) (width : Nat) (prec : Option Nat) (s : Bytes) : Bytes 
 
 def numOf (ds : Bytes) : Nat := ds.foldl (fun acc d => acc * 10 + (d - 48)) 0
 
+/-- `.precision` of a directive: the digits (if there is a `.`) and what follows -/
+def precPart (r2 : Bytes) : Option Bytes × Bytes :=
+  match r2 with
+  | 46 :: r => let ds := (r.takeWhile isDigit).take 2; (some ds, r.drop ds.length)
+  | _ => (none, r2)
+
 /-- the main loop of janet_buffer_format over the format bytes -/
 def go : Nat → Bytes → List FArg → Bytes → FRes
   | 0, _, _, out => .ok out
@@ -97,10 +103,8 @@ def go : Nat → Bytes → List FArg → Bytes → FRes
         if fl.length ≥ 6 then .err out else                -- "invalid format (repeated flags)"
         let w := (r1.takeWhile isDigit).take 2
         let r2 := r1.drop w.length
-        let (p, r3) : Option Bytes × Bytes :=
-          match r2 with
-          | 46 :: r => let ds := (r.takeWhile isDigit).take 2; (some ds, r.drop ds.length)
-          | _ => (none, r2)
+        let p := (precPart r2).1
+        let r3 := (precPart r2).2
         match r3 with
         | [] => .unsupported
         | conv :: r4 =>
